@@ -6,7 +6,7 @@ from . import common, isa, u_size
 
 NAME = "U-asm"
 TOOL = "verus"
-PROPS = ["C04", "C13", "C17", "C18", "C16"]
+PROPS = ["C04", "C13", "C17", "C18", "C03", "C16"]
 RLIMIT = 200
 TRUSTED = ["verus 0.2026.09.13 + z3", "A-vstd (String/str/Vec specs)", "A-isa: 6502 mode/length table (units/isa.py)", "A-fmt (R4)"]
 
@@ -169,7 +169,7 @@ ASM_HEADER = """
             emitted_one(old(self).out.code@, final(self).out.code@) ==> new_inst(old(self).out.code@, final(self).out.code@).protected == old(self).protected, //@ C18:asm-protected
             emitted_one(old(self).out.code@, final(self).out.code@) ==> new_inst(old(self).out.code@, final(self).out.code@).mnemonic == eff_mnemonic(mnemonic, *operand), //@ C13,C18:asm-mnemonic
             emitted_one(old(self).out.code@, final(self).out.code@) ==> legal(new_inst(old(self).out.code@, final(self).out.code@).mnemonic, assembler_mode(new_inst(old(self).out.code@, final(self).out.code@).mnemonic, kind_of_text(new_inst(old(self).out.code@, final(self).out.code@).dasm_operand@), sym_zp(old(self), *operand))), //@ C13:legal
-            emitted_one(old(self).out.code@, final(self).out.code@) ==> new_inst(old(self).out.code@, final(self).out.code@).nb_bytes as nat == mode_len(assembler_mode(new_inst(old(self).out.code@, final(self).out.code@).mnemonic, kind_of_text(new_inst(old(self).out.code@, final(self).out.code@).dasm_operand@), sym_zp(old(self), *operand))), //@ C04:nb
+            emitted_one(old(self).out.code@, final(self).out.code@) ==> new_inst(old(self).out.code@, final(self).out.code@).nb_bytes as nat == mode_len(assembler_mode(new_inst(old(self).out.code@, final(self).out.code@).mnemonic, kind_of_text(new_inst(old(self).out.code@, final(self).out.code@).dasm_operand@), sym_zp(old(self), *operand))), //@ C04,C03:nb
             emitted_one(old(self).out.code@, final(self).out.code@) ==> (operand is Tmp ==> new_inst(old(self).out.code@, final(self).out.code@).dasm_operand@ == "cctmp"@), //@ C13:text-tmp
             emitted_one(old(self).out.code@, final(self).out.code@) ==> (operand is Label ==> new_inst(old(self).out.code@, final(self).out.code@).dasm_operand@ == operand->Label_0@), //@ C13:text-label
             emitted_one(old(self).out.code@, final(self).out.code@) ==> (operand is Nothing ==> new_inst(old(self).out.code@, final(self).out.code@).dasm_operand@.len() == 0), //@ C13:text-nothing
